@@ -28,8 +28,8 @@ CONSTANTS
   HistOn,         \* BOOLEAN: record hist (behaviour generation)
   GenDepth        \* level at which a behaviour is printed
 
-VARIABLES H, inq, opened, pend, rl, phase, now, nenv, ndeaths, hist
-vars == <<H, inq, opened, pend, rl, phase, now, nenv, ndeaths, hist>>
+VARIABLES H, inq, opened, gone, pend, rl, phase, now, nenv, ndeaths, hist
+vars == <<H, inq, opened, gone, pend, rl, phase, now, nenv, ndeaths, hist>>
 
 Log(e) == IF HistOn THEN Append(hist, e) ELSE hist
 One(S) == CHOOSE x \in S : TRUE
@@ -47,8 +47,8 @@ ServeAll(X, Q, order) ==
 ApplyEntry(S, e) ==
   CASE e.a = "Open" -> [S EXCEPT !.opened = @ \cup {e.c}, !.pend = Append(@, e.c)]
     [] e.a = "Send" -> [S EXCEPT !.q[e.c] = Append(@, e.f)]
-    [] e.a = "Fin"  -> [S EXCEPT !.q[e.c] = Append(@, [k |-> "fin"])]
-    [] e.a = "Rst"  -> [S EXCEPT !.q[e.c] = Append(@, [k |-> "rst"])]
+    [] e.a = "Fin"  -> [S EXCEPT !.q[e.c] = Append(@, [k |-> "fin"]), !.gone = @ \cup {e.c}]
+    [] e.a = "Rst"  -> [S EXCEPT !.q[e.c] = Append(@, [k |-> "rst"]), !.gone = @ \cup {e.c}]
     [] e.a = "Die"  -> [S EXCEPT !.h.dead = @ \cup {e.c}]
     [] e.a = "Tick" -> [S EXCEPT !.now = @ + e.n]
     [] e.a = "Round" ->
@@ -60,13 +60,14 @@ ApplyEntry(S, e) ==
 RECURSIVE ApplyAll(_, _)
 ApplyAll(S, es) == IF Len(es) = 0 THEN S ELSE ApplyAll(ApplyEntry(S, Head(es)), Tail(es))
 
-S0 == [h |-> InitHub, q |-> [c \in Conns |-> <<>>], opened |-> {}, pend |-> <<>>, now |-> 0]
+S0 == [h |-> InitHub, q |-> [c \in Conns |-> <<>>], opened |-> {}, gone |-> {}, pend |-> <<>>, now |-> 0]
 AfterSetup == ApplyAll(S0, Setup)
 
 Init ==
   /\ H = AfterSetup.h
   /\ inq = AfterSetup.q
   /\ opened = AfterSetup.opened
+  /\ gone = AfterSetup.gone
   /\ pend = AfterSetup.pend
   /\ now = AfterSetup.now
   /\ rl = <<>> /\ phase = "idle" /\ nenv = 0 /\ ndeaths = 0
@@ -75,43 +76,42 @@ Init ==
 (***************************************************************************)
 (* environment                                                             *)
 (***************************************************************************)
-Finished(c) == Len(inq[c]) > 0 /\ inq[c][Len(inq[c])].k \in {"fin", "rst"}
-CanSend(c) == c \in opened /\ ~Finished(c) /\ Len(inq[c]) < MaxQ
+CanSend(c) == c \in opened /\ c \notin gone /\ Len(inq[c]) < MaxQ
 
 EnvOpen(c) ==
   /\ AllowOpen /\ phase = "idle" /\ nenv < MaxEnv /\ c \in Conns \ opened
   /\ opened' = opened \cup {c} /\ pend' = Append(pend, c)
   /\ nenv' = nenv + 1 /\ hist' = Log([a |-> "Open", c |-> c])
-  /\ UNCHANGED <<H, inq, rl, phase, now, ndeaths>>
+  /\ UNCHANGED <<H, inq, gone, rl, phase, now, ndeaths>>
 
 EnvSend(c, f) ==
   /\ phase = "idle" /\ nenv < MaxEnv /\ CanSend(c)
   /\ inq' = [inq EXCEPT ![c] = Append(@, f)]
   /\ nenv' = nenv + 1 /\ hist' = Log([a |-> "Send", c |-> c, f |-> f])
-  /\ UNCHANGED <<H, opened, pend, rl, phase, now, ndeaths>>
+  /\ UNCHANGED <<H, opened, gone, pend, rl, phase, now, ndeaths>>
 
 EnvFin(c) ==
   /\ AllowFin /\ phase = "idle" /\ nenv < MaxEnv /\ CanSend(c)
   /\ inq' = [inq EXCEPT ![c] = Append(@, [k |-> "fin"])]
-  /\ nenv' = nenv + 1 /\ hist' = Log([a |-> "Fin", c |-> c])
+  /\ nenv' = nenv + 1 /\ hist' = Log([a |-> "Fin", c |-> c]) /\ gone' = gone \cup {c}
   /\ UNCHANGED <<H, opened, pend, rl, phase, now, ndeaths>>
 
 EnvRst(c) ==
   /\ AllowRst /\ phase = "idle" /\ nenv < MaxEnv /\ CanSend(c)
   /\ inq' = [inq EXCEPT ![c] = Append(@, [k |-> "rst"])]
-  /\ nenv' = nenv + 1 /\ hist' = Log([a |-> "Rst", c |-> c])
+  /\ nenv' = nenv + 1 /\ hist' = Log([a |-> "Rst", c |-> c]) /\ gone' = gone \cup {c}
   /\ UNCHANGED <<H, opened, pend, rl, phase, now, ndeaths>>
 
 EnvDie(c) ==
   /\ phase = "idle" /\ ndeaths < MaxDeaths /\ c \in Live(H) \ H.dead
   /\ H' = [H EXCEPT !.dead = @ \cup {c}]
   /\ ndeaths' = ndeaths + 1 /\ hist' = Log([a |-> "Die", c |-> c])
-  /\ UNCHANGED <<inq, opened, pend, rl, phase, now, nenv>>
+  /\ UNCHANGED <<inq, opened, gone, pend, rl, phase, now, nenv>>
 
 EnvTick(n) ==
   /\ phase = "idle" /\ now + n <= MaxNow
   /\ now' = now + n /\ hist' = Log([a |-> "Tick", n |-> n])
-  /\ UNCHANGED <<H, inq, opened, pend, rl, phase, nenv, ndeaths>>
+  /\ UNCHANGED <<H, inq, opened, gone, pend, rl, phase, nenv, ndeaths>>
 
 (***************************************************************************)
 (* one iteration of run()                                                  *)
@@ -125,7 +125,7 @@ Begin(acc, order, W) ==
   /\ pend' = IF acc = "" THEN pend ELSE Tail(pend)
   /\ rl' = order /\ phase' = "round"
   /\ hist' = Log([a |-> "Round", acc |-> acc, R |-> order, W |-> SetToSeq(W)])
-  /\ UNCHANGED <<inq, opened, now, nenv, ndeaths>>
+  /\ UNCHANGED <<inq, opened, gone, now, nenv, ndeaths>>
 
 BeginAny ==
   \E acc \in (IF Len(pend) > 0 THEN {Head(pend), ""} ELSE {""}) :
@@ -143,13 +143,13 @@ Service ==
             /\ inq' = [inq EXCEPT ![c] = Tail(@)]
        ELSE /\ H' = ClearObs(H) /\ UNCHANGED inq
   /\ rl' = Tail(rl)
-  /\ UNCHANGED <<opened, pend, phase, now, nenv, ndeaths, hist>>
+  /\ UNCHANGED <<opened, gone, pend, phase, now, nenv, ndeaths, hist>>
 
 End ==
   /\ phase = "round" /\ Len(rl) = 0
   /\ H' \in WithModes(H, LAMBDA X : EndOp(ClearObs(X), now))
   /\ phase' = "idle"
-  /\ UNCHANGED <<inq, opened, pend, rl, now, nenv, ndeaths, hist>>
+  /\ UNCHANGED <<inq, opened, gone, pend, rl, now, nenv, ndeaths, hist>>
 
 Next ==
   \/ \E c \in Conns : EnvOpen(c) \/ EnvFin(c) \/ EnvRst(c) \/ EnvDie(c)
@@ -258,6 +258,7 @@ PConnectAck ==
              ELSE c \in H.dead \/ (\A x \in DOMAIN H'.emit : AckCount(H', x) = 0)]_vars
 
 (* behaviour export *)
-GenInv == TLCGet("level") < GenDepth \/ PrintT("BEH " \o ToJson(hist))
+Terminal == phase = "idle" /\ nenv = MaxEnv /\ Ready = {} /\ Len(pend) = 0
+GenInv == ~Terminal \/ PrintT("BEH " \o ToJson(hist))
 LevelBound == TLCGet("level") <= GenDepth
 =============================================================================
